@@ -404,10 +404,179 @@ def check_ballend(case):
     return Result(vio or None, sorted(classes) or ["plain"], nontrivial)
 
 
+# ---- ball_ending over several balls with two game modes -------------------------------------------------------------
+case_ballend2 = st.tuples(st.integers(2, 3), st.sampled_from([0, 5, 20, 50]), st.sampled_from([0, 5, 20]),
+                          st.lists(st.sampled_from(["both", "both", "me", "mf"]), min_size=3, max_size=3)).map(
+    lambda t: {"balls": t[0], "d_me": t[1], "d_mf": t[2], "modes": t[3]})
+
+
+def check_ballend2(case):
+    """Several balls in a row, two game modes that stop at every ball end, waits on their stopping events: ball_ending
+    must not complete (ball_ended) before every mode that was running has stopped - on every ball, not only the first."""
+    vio = []
+    classes = set()
+    with Rig("modes7", base="fakegame") as rig:
+        m = rig.machine
+        ev = m.events
+
+        def _add_ball(**kwargs):
+            m.playfield.balls += 1
+            m.playfield.available_balls += 1
+        m.playfield.add_ball = _add_ball
+        m.ball_controller.num_balls_known = 3
+        log = []
+        for n in ("ball_started", "ball_ending", "ball_ended", "game_ended", "mode_me_stopping", "mode_me_stopped",
+                  "mode_mf_stopping", "mode_mf_stopped"):
+            ev.add_handler(n, functools.partial(lambda name, **kwargs: log.append(name), n), priority=2000)
+
+        def mk_wait(delay):
+            def handler(queue, **kwargs):
+                queue.wait()
+                if delay == 0:
+                    queue.clear()
+                else:
+                    m.clock.loop.call_later(delay / 1000.0, queue.clear)
+            return handler
+        ev.add_handler("mode_me_stopping", mk_wait(case["d_me"]), priority=5)
+        ev.add_handler("mode_mf_stopping", mk_wait(case["d_mf"]), priority=5)
+        m.switch_controller.process_switch("s_start", 1, logical=True)
+        rig.run_ready()
+        m.switch_controller.process_switch("s_start", 0, logical=True)
+        rig.advance(0.5)
+        if m.game is None:
+            return Result(None, ["game did not start"], False, excluded="game did not start")
+        for b in range(case["balls"]):
+            if m.game is None:
+                break
+            which = case["modes"][b]
+            running = []
+            for name in ("me", "mf"):
+                if which in ("both", name):
+                    m.modes[name].start()
+                    running.append(name)
+            rig.advance(0.05)
+            running = [n for n in running if m.modes[n].active]
+            mark = len(log)
+            ev.post_relay("ball_drain", balls=m.game.balls_in_play)
+            m.playfield.balls = 0
+            m.playfield.available_balls = 0
+            rig.advance(0.6)
+            sl = log[mark:]
+            if sl.count("ball_ended") != 1:
+                vio.append(violation("ballend2:ball-ended-count", "ball %d: ball_ended posted %d times within 600 ms of the "
+                                     "drain (events %r)" % (b + 1, sl.count("ball_ended"), sl)))
+                break
+            for n in running:
+                stopped = "mode_%s_stopped" % n
+                if stopped not in sl or sl.index(stopped) > sl.index("ball_ended"):
+                    vio.append(violation("ballend2:ball-ended-before-mode-stopped", "ball %d: ball_ending completed (ball_ended) "
+                                         "before game mode %s had stopped although its stopping event was held for %d ms "
+                                         "(events %r)" % (b + 1, n, case["d_" + n], sl)))
+                    break
+            if vio:
+                break
+            if b >= 1 and len(running) == 2:
+                classes.add("two modes stop at the end of a later ball")
+        if rig.exceptions and not vio:
+            vio.append(violation("loop-exception", "exception reached the loop: %s" % rig.exception_summaries()[:2]))
+    return Result(vio or None, sorted(classes) or ["plain"], bool(classes))
+
+
+# ---- queue_relay_player: queue events held until another event arrives, in several contexts at once -------------------
+rp_op = st.one_of(
+    st.tuples(st.just("post"), st.sampled_from(["a", "b", "c"])).map(list),
+    st.tuples(st.just("post"), st.sampled_from(["a", "b", "c"])).map(list),
+    st.tuples(st.just("done"), st.sampled_from(["a", "b", "c"])).map(list),
+    st.tuples(st.just("done"), st.sampled_from(["a", "b", "c"])).map(list),
+    st.tuples(st.just("mode"), st.sampled_from(["start", "stop"])).map(list),
+    st.tuples(st.just("advance"), st.sampled_from([0, 1, 10])).map(list),
+)
+case_relayplayer = st.fixed_dictionaries({"ops": st.lists(rp_op, min_size=3, max_size=30)})
+
+
+def check_relayplayer(case):
+    """queue_relay_player entries in the machine config (q_a, q_b) and in a mode (q_c): a relayed queue event completes
+    exactly once, when its wait_for event arrives (or, for the mode's relay, when the mode stops) and not before;
+    relays of other contexts are not affected."""
+    patches = {"queue_relay_player": {"q_a": {"post": "a_started", "wait_for": "a_done"},
+                                      "q_b": {"post": "b_started", "wait_for": "b_done", "pass_args": True}}}
+    mp = {"mp": {"queue_relay_player": {"q_c": {"post": "c_started", "wait_for": "c_done"}}}}
+    vio = []
+    classes = set()
+    with Rig("qmodes", patches=patches, mode_patches=mp) as rig:
+        m = rig.machine
+        ev = m.events
+        done = []
+        started = []
+        for x in "abc":
+            ev.add_handler("%s_started" % x, functools.partial(lambda n, **kwargs: started.append(n), x))
+        pending = {"a": [], "b": [], "c": []}
+        exp_done = []
+        nid = [0]
+        for o in case["ops"]:
+            if vio:
+                break
+            k = o[0]
+            if k == "post":
+                x = o[1]
+                i = nid[0]
+                nid[0] += 1
+                n0 = len(started)
+                held = x in "ab" or m.modes["mp"].active
+                ev.post_queue("q_" + x, callback=functools.partial(lambda j, **kwargs: done.append(j), i))
+                rig.run_ready()
+                if held:
+                    pending[x].append(i)
+                    if started[n0:] != [x]:
+                        vio.append(violation("relayplayer:post-event", "q_%s was relayed but %s_started was posted %r" % (
+                            x, x, started[n0:])))
+                    if sum(len(v) for v in pending.values()) >= 2 and len([v for v in pending.values() if v]) >= 2:
+                        classes.add("relays of two contexts pending together")
+                else:
+                    exp_done.append(i)
+            elif k == "done":
+                x = o[1]
+                ev.post("%s_done" % x)
+                rig.run_ready()
+                exp_done += pending[x]
+                pending[x] = []
+            elif k == "mode":
+                if o[1] == "start":
+                    ev.post("start_mp")
+                    rig.run_ready()
+                else:
+                    was = m.modes["mp"].active
+                    ev.post("stop_mp")
+                    rig.run_ready()
+                    if was:
+                        if pending["c"]:
+                            classes.add("mode stops with its relay pending")
+                        exp_done += pending["c"]
+                        pending["c"] = []
+            elif k == "advance":
+                rig.advance(o[1] / 1000.0)
+            if sorted(done) != sorted(exp_done):
+                vio.append(violation("relayplayer:completion", "after %r the relayed queue events that completed are %r, expected %r "
+                                     "(still held: %r)" % (o, sorted(done), sorted(exp_done), pending)))
+            if rig.exceptions and not vio:
+                vio.append(violation("loop-exception", "exception reached the loop: %s" % rig.exception_summaries()[:2]))
+        if not vio:
+            for x in "abc":
+                ev.post("%s_done" % x)
+            rig.run_ready()
+            exp_done += pending["a"] + pending["b"] + pending["c"]
+            if sorted(done) != sorted(exp_done):
+                vio.append(violation("relayplayer:never-released", "after every wait_for event was posted the completed events are "
+                                     "%r, expected %r" % (sorted(done), sorted(exp_done))))
+    return Result(vio or None, sorted(classes) or ["plain"], bool(classes))
+
+
 SUBCHECKS = [
     SubCheck("relay", lambda: case_relay, check_relay, quick=1500, thorough=40000, procs_quick=3),
     SubCheck("programs", lambda: evprog.program(queue=True).map(fix_program), check_programs, quick=2000, thorough=60000,
              procs_quick=8),
     SubCheck("modes", lambda: case_modes, check_modes, quick=600, thorough=10000, procs_quick=4),
     SubCheck("ballend", lambda: case_ballend, check_ballend, quick=600, thorough=4000, procs_quick=4),
+    SubCheck("ballend2", lambda: case_ballend2, check_ballend2, quick=300, thorough=2000, procs_quick=4),
+    SubCheck("relayplayer", lambda: case_relayplayer, check_relayplayer, quick=600, thorough=6000, procs_quick=4),
 ]
